@@ -778,3 +778,25 @@ func loopsProgress(c *core.Ctx, rule string, pkgs ...string) {
 		}
 	}
 }
+
+// earlyExit: a path that enters the body of the (top-tested) loop at h and then leaves the loop instead of coming back
+// to its head - a `break` / `return` in the middle of a loop that is supposed to visit every index. nil when the only
+// way out is the loop's own test.
+func earlyExit(an *ir.Analysis, h *ssa.BasicBlock) *ir.Path {
+	lb := ir.LoopBlocks(h)
+	for _, p := range an.Segs[h] {
+		if p.To != nil && lb[p.To] {
+			continue
+		}
+		for i := range p.Steps {
+			in := p.Steps[i].Instr
+			if in == nil || in.Parent() != h.Parent() {
+				continue
+			}
+			if b := in.Block(); b != h && lb[b] {
+				return p
+			}
+		}
+	}
+	return nil
+}
